@@ -64,6 +64,7 @@ type FuncVerifier struct {
 	locks    *lockCfg
 	allows   []frameAllow
 	allowsDone bool
+	renamed    []string // contract names resolved through contracts/names.json (names.go)
 	inlineRets *[]*State // non-nil while a callee is executed in place (inline.go)
 	writeAllows []frameAllow
 	writesDone  bool
